@@ -18,20 +18,32 @@ SPEC = dict(
     shards=8,
     budget_s=900,
     extract=lambda ctx: _conc.extract(ctx, "C13", "C13.lean"),
-    rule=("one case = one stress configuration + seed: g in {2,3,4,5,8,12,16} goroutines, a list of n programs "
-          "(10 directed ones — map literals, if/for, the inputs of the repaired defect — plus generated ones: "
-          "nested if/elif/else, for, map/list literals, imports, sinks, functions, try, mutex, interpolated strings, "
-          "a quarter damaged), modes parse (with/without provider), eval (imports + string interpolation parsed at run "
-          "time on a shared provider), console (single expressions parsed+validated on the shared provider), mixed; "
-          "every result (hash of the canonical tree: names, token values, meta — or error kind with line/pos — plus "
-          "validation / evaluation value) is computed sequentially first, then by all goroutines concurrently, r rounds each; "
-          "mode cold: all goroutines evaluate the SAME freshly parsed+validated AST (interpolation-heavy programs, imports) at the "
-          "same moment without warm-up, reference value from a separate parse of the same source; mode ids: the goroutines parse "
-          "with ONE shared provider and the instance ids of all runtime components of all returned trees (reflection) must be "
-          "distinct; mode poison: parses abandoned by a recovered panic (faulty provider panicking at the k-th Runtime() call, k sweeping over all "
-          "node positions incl. if/for guards; 1..16 goroutines, 1 = strictly sequential host) followed by ordinary parses compared with the "
-          "reference computed before; result = number of differing results and number of duplicate instance ids. Non-trivial = at least 2 goroutines (or mode poison) and the directed programs included."),
+    rule=("one case = one stress configuration + seed: g in {2,3,4,5,8,12,16} goroutines (1 in mode poison), a list of n programs: 12 directed "
+          "ones (map literals, if/for, comments, the inputs of the repaired defect) plus generated ones covering every token kind the lexer can "
+          "produce (all keywords and symbols, pre / post comments, raw / single-quoted strings, escapes, composition access, let, break / continue, "
+          "try / except / otherwise / finally, sinks with all clauses, `;`) — the evidence counts token kinds seen / producible and AST node kinds "
+          "seen —, a quarter damaged. Modes: parse (with / without provider), eval (imports + interpolation parsed at run time), console, mixed: "
+          "every result is computed sequentially first, then by all goroutines concurrently; canonical result = hash of the tree with names, token "
+          "ids, values, flags, positions, source labels and meta data, or error type + line + column + detail, plus validation / evaluation value. "
+          "cold: all goroutines evaluate the SAME fresh validated AST at once (reference from a separate parse). ids: one shared provider, instance "
+          "ids of all components (reflection) distinct. poison: parses abandoned by a recovered panic (faulty provider panicking at the k-th Runtime() "
+          "call) followed by ordinary parses. pp: concurrent PrettyPrint of shared trees next to parses. sinks: sinks fired on g pool workers "
+          "interpolate strings and import files while host goroutines parse. inject: the debugger's InjectValue for a suspended thread next to "
+          "parses. lean (after every fourth case): the payload carries programs with their token lists; every concurrent Go result is compared "
+          "with the result of the LEAN parser model (Model/Parser, the port C07 ties to parser.go) on the same tokens. Result = differing results, "
+          "duplicate instance ids (mode lean: result hashes). Non-trivial = at least 2 goroutines (or mode poison / lean) and the directed programs "
+          "included. A 10-case slice runs under the race detector in the quick tier, the quick set in the thorough tier."),
     trusted_base=[
+        "the frame theorems (parse_reentrant, schedule_independent, shared_ast_reentrant) are conditional on hW (the threads write only the listed "
+        "cells) and hC (results do not depend on the allowed cells); neither is proved of the Go code: hW is tied by the extracted write facts "
+        "(exact allowed lists), hC by the stress (results compared at different counter values) and the counterFlows fact. They are discharged "
+        "for the models only (parserSys, idSys, their product)",
+        "except in mode lean the comparison is concurrent Go vs. sequential Go; the Lean side of those cases runs the abstract thread models "
+        "(constant `0 0` by theorem). Mode lean compares with the Lean port of the parser",
+        "regexp.Regexp values are safe for concurrent use (documented); datautil.RingBuffer locks internally; the host registers stdlib "
+        "functions before it parses or evaluates (AddStdlibFunc is unsynchronised by design)",
+        "method calls on package-level objects are followed into same-package methods only; calls through interfaces, function values and "
+        "aliases passed to other functions are not followed",
         "the access classification is syntactic (go/ast): writes through aliases, through method calls on package-level "
         "values and in dependencies (krotik/common) are not seen by the extractor; the race-detector run of the thorough "
         "tier is the supporting evidence for those",
@@ -52,7 +64,7 @@ META = dict(
     technique=("Lean 4 non-interference theorem over an interleaving model of N threads sharing named cells; the write set of the "
                "real code is re-extracted from the Go source (go/ast) on every run and checked by a generated obligation; "
                "in-process concurrent stress (and -race in the thorough tier) as correspondence"),
-    level_text=("Proof (abstract model): for every number of threads and every schedule, if the package-level writes on the "
+    level_text=("CONDITIONAL on hW and hC, which are tied to the code by extracted facts and stress, not proved of it. Proof (abstract model): for every number of threads and every schedule, if the package-level writes on the "
                 "parse / runtime-construction path are all atomic or lock-protected updates of cells the result does not depend on, "
                 "every parse result equals the sequential result and no other package-level state changes (parse_reentrant, "
                 "schedule_independent, parse_pure); the unrepaired table rewrite interferes and poisons (witnesses). "
@@ -71,4 +83,7 @@ def run(ctx):
     rc = checklib.standard(ctx, SPEC)
     if ctx.tier == "thorough":
         rc = max(rc, _conc.race_run(ctx, SPEC, tier="quick"))
+    else:
+        # a 10-case slice under the race detector in the quick tier too
+        rc = max(rc, _conc.race_run(ctx, SPEC, tier="quick", env_more={"VERIF_C13_CASES": "10"}))
     return rc
